@@ -216,7 +216,7 @@ Proof.
   rewrite to_string_prefix in Ea, Hs.
   unfold strip_alleged in Ea. destruct (alleged_none dir (kind_of (get_readonly_f f)) (file_body (get_readonly_f f))) as [E1 E2].
   rewrite E1, E2 in Ea. injection Ea as _ _ <-.
-  rewrite to_string_prefix, <- app_assoc in Hs.
+  rewrite <- app_assoc in Hs.
   destruct (dispatch_prefix_unique _ _ _ _ _ _ _ eq_refl Hs) as [_ Hk].
   unfold is_readonly. rewrite inner_mk_cap. cbn [option_map]. unfold is_readonly_f.
   rewrite <- Hk, kind_of_get_readonly, ro_kind_readonly. discriminate.
